@@ -3,6 +3,7 @@ package main
 import (
 	"fmt"
 	"math/big"
+	"sort"
 	"go/types"
 	"strings"
 	"time"
@@ -293,6 +294,29 @@ func init() {
 				}
 			}
 			return TupleV{ex.ctx.F64Const(0), ex.ctx.False}
+		},
+		// verifNoGlobalWritesExcept("pkg.var,pkg.var2"): no package-level variable of the module (nor an object reachable
+		// from one at the end of init) other than the listed ones has been written on this path since init.
+		"verif:verifNoGlobalWritesExcept": func(ex *Exec, st *State, fn *ssa.Function, args []Value) Value {
+			allowed := map[string]bool{}
+			for _, n := range strings.Split(argString(args[0]), ",") {
+				allowed[strings.TrimSpace(n)] = true
+			}
+			var bad []string
+			for n := range st.gwrites {
+				if !allowed[n] {
+					bad = append(bad, n)
+				}
+			}
+			sort.Strings(bad)
+			ex.res.Obligations++
+			if len(bad) == 0 {
+				ex.res.Discharged++
+				return nil
+			}
+			_, vals := ex.modelFor(st, nil)
+			ex.record(st, "monitor", "package-level state written after init: "+strings.Join(bad, ", "), "", vals)
+			return nil
 		},
 		"verif:verifWatchMap": func(ex *Exec, st *State, fn *ssa.Function, args []Value) Value {
 			iv := args[0].(IfaceV)
